@@ -87,6 +87,7 @@ class Stats:
         self.units += int(getattr(res, 'units', 1))
         if res.discarded:
             self.discarded += 1
+            self.hist[f"discard={getattr(res, 'discard_reason', 'unspecified')}"] += 1
         for k in res.excluded:
             self.excluded[k] += 1
         for k, v in res.worst.items():
